@@ -1,5 +1,6 @@
 # -*- coding: utf-8 -*-
 
+import io
 import sys
 
 from vsg import exceptions, parser
@@ -830,13 +831,17 @@ def read_vhdlfile(sFileName):
     if sFileName == "stdin":
         return _read(sys.stdin), None
     try:
-        with open(sFileName, encoding="utf-8") as oFile:
-            return _read(oFile), None
-    except UnicodeDecodeError:
-        with open(sFileName, encoding="ISO-8859-1") as oFile:
-            return _read(oFile), None
+        with open(sFileName, "rb") as oFile:
+            bContent = oFile.read()
     except OSError as e:
         return [], e
+    # Decode the bytes that were read instead of opening the file a second time for the
+    # ISO-8859-1 fallback: another job may have rewritten the file (as UTF-8) in between.
+    try:
+        sContent = bContent.decode("utf-8")
+    except UnicodeDecodeError:
+        sContent = bContent.decode("ISO-8859-1")
+    return _read(io.StringIO(sContent, newline=None)), None
 
 
 def is_token_at_end_of_line(iToken, lTokens):
